@@ -13,6 +13,41 @@ CHECKS = {
         note="trusted base: mock Arduino core (/verif/mock), host clang++, CPython; bounds: depth/sequence lengths as listed in the evidence file; |values| < 2^15",
         technique="explicit enumeration of all programs up to stated depth + differential execution (firmware on mock core vs CPython)",
     ),
+    "C04": dict(
+        category="model_checking",
+        text="All operation sequences (k<=2 full alphabets, k=3 over cores; thorough k<=3 full, k=4 core) per actuator (Led, RGBLed, Servo default+narrow, DCMotor), every numeric argument given as a literal and as a run-time value, getters printed after every operation. In-range: firmware trace (levels held during every wait, getter values, final levels) compared with the host classes executed by CPython. Out-of-range: clamp monitor on every pin write plus metamorphic equality with the clamped-argument sequence.",
+        design_ref="DESIGN.md §2 C04",
+        note="trusted base: mock core, CPython, host actuator classes as reference; digitalWrite HIGH/LOW identified with duty 255/0; delays compared to <1 ms, motor duty to 1 count as the property allows",
+        technique="exhaustive enumeration of operation sequences up to depth k + differential execution against the host classes + clamp monitors",
+    ),
+    "C05": dict(
+        category="model_checking",
+        text="Every subset (<=2 quick / <=3 thorough) of the ten device kinds x declaration position (before loop / top of loop body / re-bound) x first-use position x with/without main loop x N passes is transpiled, compiled and run; temporal monitors over the firmware trace check configure-before-use, one mode per pin, motor safe stop, no configuration inside loop(), exactly one button sample per pass before user code; differential agreement with CPython for every N; break placements.",
+        design_ref="DESIGN.md §2 C05",
+        note="trusted base: mock core + CPython; loop-declared devices are used with idempotent commands because CPython re-creates the host object every pass",
+        technique="exhaustive enumeration of declaration/use placements + trace monitors + differential execution for N in 0..3",
+    ),
+    "C13": dict(
+        category="exploration",
+        text="Complete product (platform names + near misses) x (all 303 registered boards + 12 near-miss spellings per board) against registry membership, partition check, and write_project for every board x port alphabet x all library lists of length <=3 x source kinds read back with configparser, byte comparison and a sentinel directory tree.",
+        design_ref="DESIGN.md §2 C13",
+        note="the registry tables are the definition of 'registered'; ports without leading/trailing whitespace or line breaks",
+        technique="exhaustive enumeration of input grids with an independent read-back oracle (configparser, bytes, directory listing)",
+    ),
+    "C19": dict(
+        category="model_checking",
+        text="Explicit-state BFS to fixpoint on real Led/RGBLed/Servo(2 calibrations)/DCMotor objects (deep copies): every public method x in-range, boundary and out-of-range arguments from every reachable state; invariants checked in every state, on every transition including raising ones (atomicity), and on the intermediate states at every sleep (monotone fades/ramps, exact sleep totals).",
+        design_ref="DESIGN.md §2 C19",
+        note="state = public getters; sleeps observed through the package-level Reduino.Actuators.sleep seam",
+        technique="explicit-state BFS with canonical hashing to a fixpoint over the real objects",
+    ),
+    "C20": dict(
+        category="model_checking",
+        text="Core pin simulation: explicit-state BFS to fixpoint with a dict memory as canonical state, implementation rebuilt per history and compared on every read after every transition (aliasing 7/'7', non-interference, pull-up default, clamping). Utils.map on the full integer grid -4..4^5 against exact Fraction arithmetic; sleep, Button (all signals up to length 6/8), Potentiometer/Ultrasonic provider sequences, SerialMonitor write/close sequences against a fake port.",
+        design_ref="DESIGN.md §2 C20",
+        note="Core module state is reset by re-executing the module (importlib.reload)",
+        technique="explicit-state BFS against a reference memory model + exhaustive argument grids",
+    ),
 }
 
 NOT_YET = {}
